@@ -34,3 +34,13 @@ claim('C02',
       note="Trusted: harness/refs/fd_scheme.py (written from the scheme, assembles the operator by applying the flux form to unit vectors) and numpy.linalg. Absorbing-corner coefficient taken from the code. With delj on, tolerance widens by 50*eps/min|u| (conditioning of the documented weight formula) and cases beyond 1e-4 are not judged. Square arrays only (one grid length for all axes, as the public API assumes). A worker crash inside a kernel is reported as a violation with the in-progress case.",
       technique="property-based differential testing (Hypothesis) of compiled kernels and drivers against a dense LU reference",
       design_ref="DESIGN.md 3/C02")
+claim('C03',
+      text="Exact metamorphic identities of the scheme checked to 1e-9 on generated models in 1-5 populations: linearity in (phi, theta0) with signed coefficients, proportionality to theta0 from an empty density, and invariance under re-expressing the model relative to another reference size (sizes and times times c, rates, selection and theta0 divided by c), for constant, constant-function and genuinely time-varying parameters, frozen/nomut flags and non-zero initial_t.",
+      note="Measured agreement on the unchanged tree ~1e-13. Zero migration rates are passed as literal zeros (the frozen check compares with 0). Whole-model programs (R3 in DESIGN) are exercised by C16/C20's program generator; the phi_1D(nu!=1, gamma!=0) equilibrium is judged under C01.",
+      technique="property-based metamorphic testing (Hypothesis): linearity and reference-size rescaling",
+      design_ref="DESIGN.md 3/C03")
+claim('C04',
+      text="Conservation identities derived from the flux-form scheme checked on generated cases in 2-5 populations: frozen populations' marginals (single and joint) unchanged at interior frequencies; marginal of any subset of isolated populations equals integrating that marginal alone under three ways of synchronising the time steps; exact mass balance (before + influx - corner outflow) against a replay with the C02 dense reference; nothing appears for frozen/nomut populations from an empty start; every frozen-with-migration pair (80, constant and function-valued) must raise ValueError.",
+      note="Trusted: harness/refs/fd_scheme.py for the corner outflow; dadi's own _compute_dt is used only to choose the duration so that the step sequence is known. Interior = every coordinate of the marginal strictly inside (0,1).",
+      technique="property-based testing (Hypothesis) of conservation invariants plus exhaustive enumeration of frozen/migration pairs",
+      design_ref="DESIGN.md 3/C04")
